@@ -105,6 +105,71 @@ func runC05(c *Ctx) {
 		}
 	}
 
+	// ---- R6 pruning only at or below finality (the only deletions apply performs that removal cannot undo)
+	{
+		n := 0
+		for _, op := range DBOps(saveBlock) {
+			if op.Kind != "Del" || !op.Key.Any(func(t *Term) bool { return t.Op == "call" && strings.HasSuffix(t.Sym, "KeyValue.Key") }) {
+				continue // only deletes of scanned keys are pruning; the temp delete is handled above
+			}
+			// key comes from a scan: the scan's upper bound must be min(finalizedHeight, …)
+			n++
+			var scan *Term
+			op.Key.Walk(func(t *Term) bool {
+				if t.Op == "call" && strings.HasSuffix(t.Sym, "db.DB).IterateRange") {
+					scan = t
+				}
+				return true
+			})
+			ok := false
+			detail := "key: " + op.Key.String()
+			if scan != nil && len(scan.Args) >= 3 {
+				end := scan.Args[2]
+				detail = "upper bound: " + end.String()
+				end.Walk(func(t *Term) bool {
+					if t.Op == "call" && strings.HasPrefix(t.Sym, "collection/ints.Min") {
+						for _, a := range t.Args {
+							if a.Op == "list" {
+								for _, e := range a.Args {
+									if e.Op == "param" && e.Sym == "p4" {
+										ok = true
+									}
+								}
+							}
+							if a.Op == "param" && a.Sym == "p4" {
+								ok = true
+							}
+						}
+					}
+					return true
+				})
+			}
+			c.Require("C05.R6 pruning-below-finality", "saveBlock pruning Del", p.InstrPos(op.Call), "index entries are pruned only up to min(finalizedHeight, …): nothing above finality is deleted by an apply", ok, detail)
+		}
+		c.MinInstances("C05.R6 pruning-below-finality (saveBlock)", n, 1)
+		// state-diff pruning in the apply function
+		pf := factsOf(procV)
+		m := 0
+		for _, op := range DBOps(procV) {
+			if op.Kind != "Del" || !op.Key.Any(func(t *Term) bool { return t.Op == "call" && strings.HasSuffix(t.Sym, "db.DB).IterateKey") }) {
+				continue
+			}
+			m++
+			newFin := IsResult("(*consensus/liskbft.API).GetBFTHeights", 1)
+			ok1, ok2 := false, false
+			for _, f := range pf.FactsAt(op.Call.Block()) {
+				if f.IsCmp && f.Op.String() == "<" && strings.Contains(f.L.String(), "bytes.ToUint32") && newFin.Match(f.R) {
+					ok1 = true
+				}
+				if f.Entails(CmpSpec{A: newFin, B: IsResult("(*blockchain.DataAccess).GetFinalizedHeight", 0), Rel: GE, D: 1}) {
+					ok2 = true
+				}
+			}
+			c.Require("C05.R6 pruning-below-finality", "processValidated diff pruning Del", p.InstrPos(op.Call), "revert diffs are pruned only for heights below the new finalized height, and only when it was raised", ok1 && ok2, fmt.Sprintf("below=%v raised=%v", ok1, ok2))
+		}
+		c.MinInstances("C05.R6 pruning-below-finality (diffs)", m, 1)
+	}
+
 	// ---- R2 state diff lifecycle
 	var setKey, delKey, getKey *Term
 	for _, op := range DBOps(procV) {
